@@ -461,5 +461,5 @@ fn check5(ctx: &Ctx, c: &Case5, probe: &mut Probe) -> Check {
 }
 
 pub fn subs(_ctx: &Ctx) -> Vec<Box<dyn Sub>> {
-    vec![prop_sub("chain-and-tamper-catalogue", 300, 8_000, case5(), check5)]
+    vec![crate::svcops::sub(), prop_sub("chain-and-tamper-catalogue", 300, 8_000, case5(), check5)]
 }
